@@ -35,6 +35,17 @@ func c03Gen(rng *rand.Rand, m *model.Model, keys []string) []string {
 		a := []string{"LMPOP", "3", "l0", "l1", "l2", pick(rng, []string{"LEFT", "RIGHT"}), "COUNT", strconv.Itoa(w)}
 		return a
 	}
+	if rng.Intn(25) == 0 {
+		// whole-list copies and moves: afterwards the two keys must be independent objects
+		k2 := pick(rng, lists)
+		switch rng.Intn(3) {
+		case 0:
+			return []string{"COPY", k, k2, "REPLACE"}
+		case 1:
+			return []string{"COPY", k, k2}
+		}
+		return []string{"RENAME", k, k2}
+	}
 	el := func() string { return pick(rng, c03Elems) }
 	idx := func() string {
 		if rng.Intn(10) == 0 {
